@@ -67,6 +67,19 @@ func c13Scenarios() []*core.Scenario {
 	}
 }
 
+// c12Scenarios: concurrent reads of entries larger than the pooled 64 KiB read
+// buffer (two disk reads per entry; the pool is a deterministic LIFO).
+func c12Scenarios() []*core.Scenario {
+	seg := core.Config{SegSize: 1 << 20}
+	setup := []core.Op{a(1, 0, 70000), a(2, 0, 66000), a(3, 0, 12)}
+	return []*core.Scenario{
+		{Name: "GetLog(70000-byte entry) || GetLog(66000-byte entry)", Cfg: seg, Prop: "C12", Setup: setup,
+			Threads: []core.ThreadSpec{{Name: "reader1", Ops: []core.Op{{K: "GL", Idx: 1}}}, {Name: "reader2", Ops: []core.Op{{K: "GL", Idx: 2}}}}},
+		{Name: "GetLog(70000-byte entry) || GetLog(small), GetLog(small)", Cfg: seg, Prop: "C12", Setup: setup,
+			Threads: []core.ThreadSpec{{Name: "reader1", Ops: []core.Op{{K: "GL", Idx: 1}}}, {Name: "reader2", Ops: []core.Op{{K: "GL", Idx: 3}, {K: "GL", Idx: 3}}}}},
+	}
+}
+
 // c08Scenarios: stable operations concurrent with log mutations.
 func c08Scenarios() []*core.Scenario {
 	seg := core.Config{SegSize: 128}
@@ -74,6 +87,13 @@ func c08Scenarios() []*core.Scenario {
 		{Name: "Set, Get, SetUint64, GetUint64 || sealing append + rotation, head truncation", Cfg: seg, Prop: "C08", Setup: []core.Op{a(1, 0, 4), a(2, 0, 4)},
 			Threads: []core.ThreadSpec{{Name: "stable", Ops: []core.Op{{K: "S", Key: "k1", Val: []byte("v1")}, {K: "G", Key: "k1"}, {K: "U", Key: "k2", U64: 9}, {K: "GU", Key: "k2"}}},
 				{Name: "writer", Ops: []core.Op{a(3, 0, 4), {K: "D", Min: 1, Max: 1}}}}},
+		{Name: "SetUint64(k1), GetUint64(k1) || SetUint64(k2), GetUint64(k2) || sealing append", Cfg: seg, Prop: "C08", Setup: []core.Op{a(1, 0, 4), a(2, 0, 4)},
+			Threads: []core.ThreadSpec{{Name: "stable1", Ops: []core.Op{{K: "U", Key: "k1", U64: 111}, {K: "GU", Key: "k1"}}},
+				{Name: "stable2", Ops: []core.Op{{K: "U", Key: "k2", U64: 222}, {K: "GU", Key: "k2"}}},
+				{Name: "writer", Ops: []core.Op{a(3, 0, 4)}}}},
+		{Name: "Set(k1), Get(k1) || Set(k1 other value), Get(k2)", Cfg: seg, Prop: "C08",
+			Threads: []core.ThreadSpec{{Name: "stable1", Ops: []core.Op{{K: "S", Key: "k1", Val: []byte("aaaa")}, {K: "G", Key: "k1"}}},
+				{Name: "stable2", Ops: []core.Op{{K: "S", Key: "k2", Val: []byte("bbbbbbbb")}, {K: "G", Key: "k2"}}}}},
 		{Name: "Set(nil), Get || tail truncation and re-append || reader", Cfg: seg, Prop: "C08", Setup: []core.Op{a(1, 0, 4), a(2, 0, 4), {K: "S", Key: "k1", Val: []byte("old")}},
 			Threads: []core.ThreadSpec{{Name: "stable", Ops: []core.Op{{K: "S", Key: "k1", Nil: true}, {K: "G", Key: "k1"}}},
 				{Name: "writer", Ops: []core.Op{{K: "D", Min: 2, Max: 2}, a(2, 1, 12)}}, {Name: "reader", Ops: []core.Op{{K: "GL", Idx: 2}, {K: "LI"}}}}},
@@ -120,6 +140,8 @@ func runSched(prop string) *ShardResult {
 		scs = c13Scenarios()
 	case "C08":
 		scs = c08Scenarios()
+	case "C12":
+		scs = c12Scenarios()
 	default:
 		scs = c14Scenarios()
 	}
